@@ -10,8 +10,8 @@ COMPS = [
 LEVEL = ("No-overlap, in-range/size (no uint16 wrap), stable-until-released and log attribution (at most one "
          "answer, and it is the holder) are theorems over the Lean model of nat.Manager + the port-block records of "
          "nat.Logger for ALL histories of the code's critical sections (AllocateNAT is two steps, precheck and "
-         "pool-lock section, so every interleaving of concurrent callers is a history) and all configurations with "
-         "a positive block size and rangeEnd <= 65535. The model is tied to the real Go code by differential "
+         "pool-lock section, so every interleaving of concurrent callers is a history) and every configuration "
+         "NewManager accepts. The model is tied to the real Go code by differential "
          "execution (real Manager, real Logger writing JSON into a buffer); concurrent callers are placed between "
          "precheck and pool lock deterministically through a verif hook on the pool mutex; the C10 monitor judges "
          "the real code's answers and log records. The logger's buffer/flush split is exercised too: the harness can stop "
@@ -22,8 +22,8 @@ LEVEL = ("No-overlap, in-range/size (no uint16 wrap), stable-until-released and 
 ASSUME = [
     "each critical section is one atomic step (AllocateNAT: lookup under allocationMu.RLock, then everything under poolMu; "
     "DeallocateNAT and AddPublicIP: one section under poolMu); data races inside a critical section are not modelled",
-    "configuration values are non-negative ints; theorems assume portsPerSubscriber >= 1 and portRangeEnd <= 65535 "
-    "(NewManager does not validate; a range beyond 65535 wraps in uint16 and is outside the theorems)",
+    "configurations: the model has NewManager's defaults and validation on Go ints (newManager); the theorems hold for every "
+    "configuration it accepts (accepted_is_valid); rejected ones (range outside 1-65535, block size outside 1-65535) are generated too and must answer `invalid`",
     "eBPF maps are nil in the harness (the subscriber_nat Put/Delete is not exercised); IPv6 arguments (rejected) are not generated",
     "log time = position in the log; the harness checks that record timestamps never go backwards; the deallocate record's duration_ms is not compared",
     "queued callers acquire the pool mutex in FIFO order (Go's sync.Mutex hands off to parked waiters in queue order)",
